@@ -13,6 +13,7 @@ def run(tier):
     res = common.run_lines(binary, items, tag="c05")
     oracle.decode_many([r["bytes"] for r in res if "bytes" in r and r.get("rc") == 0])
     st = {"accepted": 0, "rejected": 0, "rel8": 0, "rel32": 0, "must_reject_checked": 0, "silent_model": 0}
+    relacc = []
     for c, (m, _, _), r, refok in zip(cases, items, res, ok):
         v.count()
         cc = dict(c)
@@ -62,8 +63,12 @@ def run(tier):
             v.violation(cc, "form:%s-not-allowed" % form, info)
             continue
         v.distinct((c["text"], r["bytes"]))
+        relacc.append((c, m, r["bytes"]))
         if st["accepted"] % 4000 == 1:
             v.sample({"text": c["text"], "opts": m, "bytes": r["bytes"], "decoded": info, "form": form})
+    # the relative forms in chunk-fitting (padded, encoded twice) and counting mode: the displacement is a literal, not a target, so the
+    # bytes must be exactly those of plain assembly wherever the branch ends up
+    st["rel_mode_crossing_checks_ok"] = enc.mode_crossing(v, binary, relacc)
     # indirect forms: registers here; memory and far-memory targets over the C02 address shapes
     ind = isa.gen_branch_indirect()
     mem = isa.gen_mem(full, rnd, classes={"jmp_m", "call_m"}, per_class=None if full else 3000)
